@@ -36,6 +36,12 @@ CHECKS = {
  "C03": ("model_checking", "exhaustive enumeration of sweep specifications against a reference sweep enumerator (closed-form ranges, sorted product / zip / broadcast, computed > node > context > default merge, own expression evaluator)",
          "1-3 variables declared in non-sorted order over range (linear/log, with/without endpoint, 1 and 3 steps), explicit sequences (mapping and YAML-list form, lengths 1-3) and from_context domains; both modes, broadcast on/off; expressions incl. none, functions and multi-variable forms; source, operation and probe wrappers; every placement of the non-swept parameter; alone and inside surrounding pipelines (sum, slicer, probe); precedence and rejection cases. Element count, order and values, the typed collection / probe list, data pass-through and every <var>_values key must equal the reference.",
          "reference mc/ref/sweep.py written from docs/source/collection_modifiers.rst; relative tolerance 1e-9 on range values", "3 C03"),
+ "C04": ("exploration", "exhaustive application of validated meaning-preserving rewrites at every position of every configuration (in-process), plus fresh-process probes over hash seeds x cwd x virtual clock x enumerated prior histories; three identity paths and CLI stdout compared",
+         "Every configuration of a set covering all node kinds, nested parameters, 1-2-variable sweeps of every domain kind and run-space blocks is rewritten in every single cosmetic way at every applicable position (mapping key order, flow/block, quoting, anchors/aliases, comments/indentation, equivalent scalar spellings, all permutations and bracketings of +/* chains in sweep expressions) and in pairs; each rewrite is validated by re-loading to the identical structure, then node UUIDs, pipeline id and the byte-exact inspection payload must be unchanged. Fresh interpreters with different PYTHONHASHSEED, cwd, a virtual clock a year apart and all histories of length <=1 (thorough <=2) over {inspect B, construct B, run B, run A, inspect A} must reproduce the same identities; inspection payload, Pipeline construction, pipeline_start and  stdout must agree.",
+         "PyYAML (YAML 1.1) scalar resolution defines 'equivalent spelling'; 1 vs 1.0 is not treated as equivalent; environment factors are rotated against histories rather than fully crossed", "3 C04"),
+ "C05": ("exploration", "exhaustive single-point semantic mutation of every configuration, one operator per identity-bearing field at every applicable position; ID inequality and UUID distinctness as oracle",
+         "For every configuration: change the processor of each node, every parameter leaf / key / list element at any depth, delete / duplicate / swap nodes, and for sweeps the wrapped processor, each expression (constant, variable, operator, function, swapped operands of non-commutative operators; grid-equal mutants discarded), every field of every variable domain incl. each element of each sequence (also the middle of a 9-element one), mode, broadcast and collection. Each mutant must change semantic ID, config ID and the affected node's UUID or node semantic ID; all node UUIDs in every pipeline must be pairwise distinct.",
+         "context_key is not an identity-bearing field per the property; expression equivalence decided on the integer grid {-2..3}^3", "3 C05"),
 }
 NA = []
 def main():
